@@ -12,6 +12,9 @@ from .encode_model import conj, find_docstring_guards, guards_of, inline_locals
 from .c05 import _O
 
 
+MUTATORS = {"add", "update", "append", "extend", "setdefault", "pop", "discard", "remove", "clear", "__setitem__"}
+
+
 def find_rank_site(an: Analysis):
     """The method of the decoder's table class that records the rank of a newly met index."""
     it, _ = an.interp("from_code")
@@ -35,7 +38,7 @@ def find_rank_site(an: Analysis):
     raise AnalysisError("decoder rank bookkeeping (`if index not in self.MAP: self.MAP[index] = RANK`) not found")
 
 
-def duplicates_key_rule(an: Analysis, rep, f=None, mapattr=None):
+def duplicates_key_rule(an: Analysis, rep, f=None, mapattr=None, redundancy=False):
     """Entries that always keep their override (duplicates) are detected with the table's own key function."""
     if f is None:
         f, ifst, assign, mapattr, idx = find_rank_site(an)
@@ -84,6 +87,19 @@ def duplicates_key_rule(an: Analysis, rep, f=None, mapattr=None):
                     rep.add("R09.2", f"{m.qual}::self.{attr} only holds computed duplicates", False, loc(m.module, n),
                             f"`{norm_src(n)}` puts an index into self.{attr} that was not found to be duplicated: the rank function then reports an override for an entry that sits "
                             f"exactly at its first-use rank (e.g. a docstring an instruction also loads) - a redundant override")
+    # a pin is only justified at a use where the encoder's look-up by key would resolve to ANOTHER entry, i.e. after a different entry with the same key
+    # has been met: a set computed once, before any instruction is looked at, pins the first-met of the duplicates too
+    for attr in (sorted(consulted) if redundancy else []):  # a matter of redundant overrides (C09) only: losslessness does not depend on it
+        updated_on_discovery = any(
+            (isinstance(n, (ast.Assign, ast.AugAssign)) and any(isinstance(t_, (ast.Attribute, ast.Subscript)) and attr in norm_src(t_) for t_ in (n.targets if isinstance(n, ast.Assign) else [n.target])))
+            or (isinstance(n, ast.Call) and isinstance(n.func, ast.Attribute) and n.func.attr in MUTATORS and isinstance(n.func.value, ast.Attribute) and n.func.value.attr == attr)
+            for n in ast.walk(f.node))
+        other_state = [a for a in sorted(consulted) if a != attr]
+        rep.add("R09.2", f"{f.qual}::pinning by self.{attr} depends on what has been met", updated_on_discovery or bool(other_state and False), loc(f.module, f.node),
+                f"self.{attr} is updated as entries are met" if updated_on_discovery else
+                f"self.{attr} is fixed before the first instruction is decoded, so every entry whose key occurs twice is pinned at every use - also the first one met, at its own "
+                f"first-use rank, where the encoder's look-up by key still finds exactly that entry: `x = 1e999-1e999; y = 1e999-1e999` (co_consts (nan, nan', None), in first-use "
+                f"order) decodes with Constant(nan, _index_override=0), an override that can be removed without changing the re-encoding")
     if keyattr and dupsites:
         for m, c in dupsites:
             fnode = c.func
@@ -452,7 +468,7 @@ def run(an: Analysis, rep):
 
     rep.run(seed_rules, an, rep)
 
-    rep.run(duplicates_key_rule, an, rep, f, mapattr)
+    rep.run(duplicates_key_rule, an, rep, f, mapattr, True)
 
     # R09.5: nothing but the rank function decides an override
     rep.rule("R09.5", "position overrides of decoded operands come from the rank function only", 4)
